@@ -167,7 +167,7 @@ Definition wf_op_b (w : world) (o : pop) : bool :=
 
 Lemma wf_op_b_sound w o : wf_op_b w o = true → wf_op w o.
 Proof.
-  destruct o as [e|key nodes orc fl|ns name uid node orc fl|n orc oun fl|ip orc ocl fl|k ip ocl fl|key fl|io|conf];
+  destruct o as [e|key nodes orc fl|ns name uid node orc fl|n orc oun fl|ip orc ocl fl|k ip ocl fl|sp fl|io|conf];
     cbn [wf_op_b wf_op]; try done.
   - destruct e as [p|key|key ph|key|key r|key r|name r|n]; cbn [wf_env]; try done.
     + rewrite !andb_true_iff. intros [[[H1 H2] H3] H4]. split_and!.
